@@ -136,6 +136,12 @@ MUTANTS of /repo tried in a scratch worktree (all reported VIOLATION with a conc
       changed the file system between reads of one tensor object); caught since the world-changing events were added:
       e.g. base W/da, loc f1: tofile ; da/f1 replaced by a symlink to W/outside/secret ; tofile -> canary bytes
       [correspondence + oracle, concrete shrunk replay].
+  seeded C10-r6m1 (link count checked on the descriptor after self.raw was assigned) and C10-r6m3 (tofile returns early for
+      size 0 before the check): first seen only as translation rejections.  The tracer's wrapper of the check now passes
+      arguments through (it had changed the mutant's behaviour); histories retry every accessor on the same tensor object
+      after a rejection and use zero-size tensors on rejected locations; the oracle has the "must raise" clause (what
+      join(base, location) denotes for the kernel, by inode, is outside / multiply linked => the call raises, size 0
+      included) and flags bytes served from a cache filled by a read that had to be rejected.
   seeded C10-r5m3 (set_base_dir honours a `basepath` external_data entry kept in tensor.meta): missed at first (no model
       file carried extra external_data entries); now the loaded models of the load tie and of the traversal tie carry
       basepath (absolute / with .. / benign / empty), checksum and unknown keys; the base must be exactly the model
@@ -532,9 +538,9 @@ class Tracer:
         orig_check = _core.ExternalTensor._check_path_containment
         self._orig_check = orig_check
 
-        def check(self_t):
+        def check(self_t, *a, **k):
             try:
-                orig_check(self_t)
+                orig_check(self_t, *a, **k)
             except Exception as e:  # noqa: BLE001
                 tr.events.append(["C", os.fspath(self_t.base_dir), os.fspath(self_t.location), common.exn_name(e)])
                 raise
@@ -604,6 +610,13 @@ def run_impl(case: dict, root: str, tracer: Tracer, snap0: "Snapshot | None" = N
                 if cb_now is None:
                     # base_dir the kernel cannot resolve: Python's non-strict resolution (see docstring, readings)
                     cb_now = os.path.realpath(b_now)
+            tgt_now = None
+            if b_now:
+                try:
+                    st_t = os.stat(os.path.join(b_now, sub(case["loc"])))
+                    tgt_now = [(st_t.st_dev, st_t.st_ino), statmod.S_ISDIR(st_t.st_mode)]
+                except (OSError, ValueError):
+                    tgt_now = None
             _AUDIT["on"] = True
             try:
                 k = op[0]
@@ -660,7 +673,7 @@ def run_impl(case: dict, root: str, tracer: Tracer, snap0: "Snapshot | None" = N
             traced = [e[1] for e in tracer.events if e[0] == "O"]
             stray = [p for p in _AUDIT["paths"] if p not in traced and not p.endswith("dst.bin")]
             out.append({"events": list(tracer.events), "res": r, "stray_opens": stray if k != "world" else [],
-                        "snap": snap, "cwd": os.getcwd(), "base": b_now, "cb": cb_now})
+                        "snap": snap, "cwd": os.getcwd(), "base": b_now, "cb": cb_now, "tgt": tgt_now})
             tracer.events = []
         t.release()
     finally:
@@ -684,8 +697,12 @@ def oracle(case: dict, obs: list, snap_unused, root: str) -> list:
     resolved base; a failing check means nothing was opened; every open was preceded by a passing check."""
     bad = []
     base = case["base"].replace(W, root)
+    tainted = False       # the tensor's cache was filled by a read that should have been rejected
+    cached = False        # the tensor holds data of an earlier successful read (numpy/tobytes may serve it unchecked)
     for i, (op, o) in enumerate(zip(case["ops"], obs)):
         snap, cwd = o["snap"], o["cwd"]      # the world in force at this call
+        if op[0] == "release":
+            tainted = cached = False
         if op[0] == "setbase":
             base = op[1].replace(W, root)
             continue
@@ -705,8 +722,28 @@ def oracle(case: dict, obs: list, snap_unused, root: str) -> list:
         if any(c[3] != "ok" for c in checks) and opens:
             bad.append(f"step {i} {op[0]}: the check raised but a file was opened")
         if o["base"] == "":
+            if o["res"][0] == "ok" and any(e[0] == "R" for e in ev):
+                cached = op[0] != "serialize"
             continue        # no boundary defined (documented behaviour of the code)
         cb = o["cb"]        # canonical directory base_dir denoted when this call was made
+        nbad0 = len(bad)
+        # "every other location raises": what join(base_dir, location) denotes for the kernel right now is a file
+        # with several links / a file or directory outside the base  ==>  the accessor must raise (also for a tensor
+        # of size 0).  numpy/tobytes of a tensor that already holds data of an earlier accepted read are exempt.
+        if o.get("tgt") is not None and not (cached and op[0] in ("numpy", "array", "tobytes", "serialize")):
+            key, is_dir = o["tgt"]
+            if is_dir:
+                dp = snap.dir_path.get(key)
+                outside = dp is None or cb is None or not (dp == cb or dp.startswith(cb.rstrip("/") + "/"))
+                why = f"the directory {dp}"
+            else:
+                fid_ = snap.ino_id.get(key)
+                outside = fid_ is None or cb is None or snap.file_nlink[fid_] != 1 or not all(
+                    p_.startswith(cb.rstrip("/") + "/") for p_ in snap.file_paths[fid_])
+                why = f"{snap.file_paths.get(fid_)} (st_nlink {snap.file_nlink.get(fid_)})"
+            if outside and o["res"][0] != "raise":
+                bad.append(f"step {i} {op[0]}: location denotes {why}, not a singly-linked file inside {cb}, "
+                           f"but the call did not raise (returned {o['res'][1]!r})")
         for r in reads:
             i_d = snap.ino_id.get(r[1])
             if i_d is None:
@@ -720,6 +757,8 @@ def oracle(case: dict, obs: list, snap_unused, root: str) -> list:
         if o["res"][0] == "ok" and o["res"][1] and not reads:
             # cached bytes: allowed only if they were read under the same base earlier
             pass
+        if o["res"][0] == "ok" and o["res"][1] and not reads and tainted:
+            bad.append(f"step {i} {op[0]}: returned {o['res'][1]!r} from the cache left behind by a read that had to be rejected")
         if o["res"][0] == "ok" and o["res"][1] and reads:      # fresh bytes (cached ones: see readings)
             b = o["res"][1]
             fids = set(b)
@@ -735,6 +774,10 @@ def oracle(case: dict, obs: list, snap_unused, root: str) -> list:
                         if snap.file_nlink[k] != 1 or cb is None or not all(
                                 p.startswith(cb.rstrip("/") + "/") for p in snap.file_paths[k]):
                             bad.append(f"step {i} {op[0]}: returned bytes of {snap.file_paths[k]} (canary / outside {cb})")
+        if reads and op[0] in ("numpy", "array", "tobytes"):
+            cached = True                      # raw / _array may now be set (also when the call raised after mapping)
+            if len(bad) > nbad0:
+                tainted = True
     return bad
 
 
@@ -873,6 +916,19 @@ def gen_cases(rng, root: str, count: int) -> list:
             if mc is not None:
                 cases.append(mc)
                 continue
+        if rng.random() < 0.13:
+            # a location that must be rejected, read through several accessors in a row on the SAME tensor object
+            # (retry after rejection), also as a zero-size tensor
+            cwd3, base3 = rng.choice([("", W + "/da"), ("", W + "/da/"), ("da", "."), ("", "da"), ("", W + "/lbase")])
+            loc3 = rng.choice(["hsecret", "lout", "lsib", "ldirout/secret", "../outside/secret", W + "/outside/secret",
+                               "../dab/f1", "../DA/f1", "sub/../hsecret", "ldirout", ".."])
+            k3 = rng.randrange(2, 5)
+            ops3 = [[rng.choice(OPS)] for _ in range(k3)]
+            if rng.random() < 0.25:
+                ops3.insert(rng.randrange(1, len(ops3)), ["release"])
+            cases.append({"cwd": cwd3, "base": base3, "loc": loc3, "n": rng.choice([0, 0, 4, 1]), "off": None, "len": None,
+                          "ops": ops3})
+            continue
         if rng.random() < 0.07:
             # ".." after a symlinked directory: the kernel's parent is not the lexical parent
             # (lsub -> da/sub: lsub/.. is da ; da/ldirout -> ../outside: da/ldirout/.. is the world root)
